@@ -145,6 +145,8 @@ func VerifMain(args []string) int {
 		}
 		run(genLattice(12, 4))
 		run(genChain(2000))
+	case "sig":
+		runSigStreams(out, *nodes)
 	default:
 		fmt.Fprintln(os.Stderr, "unknown mode", args[0])
 		return 2
